@@ -58,7 +58,7 @@ PROPERTIES: dict[str, dict] = {
         "assumptions": COMMON_ASSUMPTIONS + ["attribute values of graphs reaching the serializer come from the readers or the parser"],
     },
     "C06": {
-        "rules": ["R-ATTRREAD", "R-KEYS", "R-PROV", "R-KWEXACT", "R-ZERO", "R-SUPERSEDE", "R-SPLICE", "R-INDEXSPACE", "R-GRAPHBUILD", "R-FLOW-SERIAL", "R-FLOW-CANON", "R-DISPATCH", "R-IDXTRUTH", "R-COLS"],
+        "rules": ["R-ATTRREAD", "R-KEYS", "R-PROV", "R-KWEXACT", "R-ZERO", "R-SUPERSEDE", "R-SPLICE", "R-INDEXSPACE", "R-GRAPHBUILD", "R-FLOW-SERIAL", "R-FLOW-CANON", "R-DISPATCH", "R-IDXTRUTH", "R-COLS", "R-COUNTSLINE"],
         "technique": "read-set analysis of the pipeline + provenance taint in the readers + partial evaluation of keyword recognizers",
         "explanation": "The pipeline reads only invariant code / partition / Z / symbol / mass / rad and no edge data; the invariant code is exactly "
                        "(Z, mass, rad); in both readers those attributes receive values only from their own fields (provenance labels); an unrelated "
@@ -67,7 +67,7 @@ PROPERTIES: dict[str, dict] = {
         "assumptions": COMMON_ASSUMPTIONS + ["CTfile V3000 atom keyword list (spec.py)"],
     },
     "C07": {
-        "rules": ["R-KWEXACT", "R-ZERO", "R-ORDERING", "R-SPLICE", "R-TOKENS", "R-SIBKEYS", "R-PROV", "R-ALIAS", "R-WRAP", "R-INDEXSPACE", "R-GRAPHBUILD", "R-DISPATCH", "R-SYMZ", "R-BONDTYPE", "R-IDXTRUTH"],
+        "rules": ["R-KWEXACT", "R-ZERO", "R-ORDERING", "R-SPLICE", "R-TOKENS", "R-SIBKEYS", "R-PROV", "R-ALIAS", "R-WRAP", "R-INDEXSPACE", "R-GRAPHBUILD", "R-DISPATCH", "R-SYMZ", "R-BONDTYPE", "R-IDXTRUTH", "R-COUNTSLINE"],
         "technique": "partial evaluation of token predicates over the spec's keyword set + heap-based taint analysis of the reader + CFG ordering rules",
         "explanation": "Keyword recognizers accept exactly their keyword; zero-valued explicit defaults never reach atom records; splicing precedes "
                        "tokenising and bond endpoints are validated before return; D/T pass through the shared helper; per-bond dictionaries are not shared.",
